@@ -139,18 +139,198 @@ impl C10 {
     }
 }
 
+
+impl C10 {
+    /// randomised version of the frame invariants for designs whose state space cannot be enumerated: on Success the
+    /// invariant (complement of the infinite frame's cubes) must contain every state that constrained random
+    /// simulation in R3 visits, must not contain a state that is bad under a constraint-satisfying input, and must
+    /// be closed under constraint-satisfying steps from sampled states
+    fn sampled_invariant_check(&self, sh: &mut Shard, ctx: &Context, sys: &TransitionSystem, rng: &mut Rng, infinite: &[Vec<ExprRef>]) -> Result<(), (String, String)> {
+        use crate::refsem::bv::Val;
+        use crate::refsem::sim::RefSim;
+        use crate::wl::expr::random_env;
+        let state_syms: Vec<ExprRef> = sys.states.iter().map(|s| s.symbol).collect();
+        let mut all_syms = state_syms.clone();
+        all_syms.extend(sys.inputs.iter().copied());
+        let mut roots: Vec<ExprRef> = sys.constraints.clone();
+        roots.extend(sys.bad_states.iter().copied());
+        let nc = sys.constraints.len();
+        let truth = |v: &Val| matches!(v, Val::B(b) if b.is_true());
+        let blocked = |env: &Env| infinite.iter().find(|c| cube_contains(ctx, c, env)).cloned();
+        let show_states = |env: &Env| state_syms.iter().map(|s| format!("{}={}", r2::render(ctx, *s), match &env[s] { Val::B(b) => b.show(), Val::A(_) => "<array>".into() })).collect::<Vec<_>>().join(" ");
+        // picks inputs (and for step 0 free state values) until the constraints hold; None if 12 tries fail
+        let settle = |sim: &mut RefSim, rng: &mut Rng, init: bool| -> Option<Vec<Val>> {
+            for _ in 0..12 {
+                if init {
+                    let env = random_env(rng, ctx, &all_syms);
+                    sim.init(|s| env[&s].clone()).ok()?;
+                } else {
+                    let env = random_env(rng, ctx, &sys.inputs);
+                    for i in &sys.inputs {
+                        sim.set(*i, env[i].clone());
+                    }
+                }
+                let vals = sim.get_many(&roots).ok()?;
+                if vals[..nc].iter().all(truth) {
+                    return Some(vals);
+                }
+            }
+            None
+        };
+        // (1) reachable states (random constrained paths from the initial states)
+        for _ in 0..sh.tier.pick(30, 200) {
+            let mut sim = RefSim::new(ctx, sys);
+            for step in 0..sh.tier.pick(15, 40) {
+                let Some(vals) = settle(&mut sim, rng, step == 0) else { break };
+                sh.count("corpus_invariant_reachable_states_checked", 1);
+                if let Some(c) = blocked(&sim.vals) {
+                    return Err(("infinite-frame-blocks-reachable-state".into(), format!("the infinite frame blocks the cube [{}] which contains the state {} reached by the reference simulator after {step} step(s) on a constraint-satisfying path", show_cube(ctx, &c), show_states(&sim.vals))));
+                }
+                if vals[nc..].iter().any(truth) {
+                    return Err(("invariant-contains-bad-state".into(), format!("state {} is reachable ({step} steps, reference simulator) and bad under a constraint-satisfying input", show_states(&sim.vals))));
+                }
+                if sim.step().is_err() {
+                    break;
+                }
+            }
+        }
+        // (2) closure from sampled states inside the invariant
+        for _ in 0..sh.tier.pick(300, 3000) {
+            let mut sim = RefSim::new(ctx, sys);
+            let env = random_env(rng, ctx, &all_syms);
+            for s in &all_syms {
+                sim.vals.insert(*s, env[s].clone());
+            }
+            if blocked(&sim.vals).is_some() {
+                continue;
+            }
+            let Some(vals) = settle(&mut sim, rng, false) else { continue };
+            sh.count("corpus_invariant_states_sampled", 1);
+            let from = show_states(&sim.vals);
+            if vals[nc..].iter().any(truth) {
+                return Err(("invariant-contains-bad-state".into(), format!("the invariant contains state {from} which is bad under a constraint-satisfying input")));
+            }
+            if sim.step().is_err() {
+                continue;
+            }
+            // successor: only judged if it is feasible (has an input satisfying the constraints)
+            if settle(&mut sim, rng, false).is_some() {
+                if let Some(c) = blocked(&sim.vals) {
+                    return Err(("invariant-not-closed".into(), format!("the invariant contains {from} but its (feasible) successor {} lies in the blocked cube [{}]", show_states(&sim.vals), show_cube(ctx, &c))));
+                }
+                sh.count("corpus_invariant_steps_checked", 1);
+            }
+        }
+        Ok(())
+    }
+
+    /// PDR on the shipped bit-vector designs under a deterministic effort bound
+    fn corpus_case(&self, sh: &mut Shard, rng: &mut Rng, n: usize) {
+        let files = super::c11::corpus_files();
+        let Some(path) = files.get(n) else { return };
+        let Ok(text) = std::fs::read_to_string(path) else { return };
+        let name = util::short_path(&path.to_string_lossy());
+        if text.len() > sh.tier.pick(4_000, 16_000) || !text.lines().any(|l| l.split_whitespace().nth(1) == Some("bad")) {
+            return;
+        }
+        let mut ctx = Context::default();
+        let Ok(Some(sys)) = util::catch(|| patronus::btor2::parse_str(&mut ctx, &text, Some("corpus"))) else { return };
+        use patronus::expr::{Type, TypeCheck};
+        let nodes = r2::post_order(&ctx, &crate::wl::sys::all_roots(&sys));
+        if sys.states.is_empty() || sys.states.iter().any(|s| s.next.is_none()) || nodes.iter().any(|e| matches!(e.get_type(&ctx), Type::Array(_))) {
+            sh.count("corpus_designs_outside_the_domain", 1);
+            return;
+        }
+        sh.count("corpus_designs", 1);
+        let (sim_bad, _, _) = super::c02::sim_first_bad(&ctx, &sys, rng, 40, sh.tier.pick(40, 400), sh.tier.pick(3_000_000, 60_000_000));
+        let mut behaviours: Vec<(&str, bool, &str)> = vec![];
+        for p in ["bitwuzla", "z3", "cvc5"] {
+            for core in ["minimal", "full", "random"] {
+                behaviours.push((p, false, core));
+            }
+            behaviours.push((p, true, "minimal"));
+        }
+        let (persona, no_gen, core) = *rng.pick(&behaviours);
+        let snaps: Rc<RefCell<Option<Snapshot>>> = Rc::new(RefCell::new(None));
+        let s2 = snaps.clone();
+        patronus::verif::set_pdr_observer(Some(Box::new(move |_ctx, finite, infinite, success| {
+            if success {
+                *s2.borrow_mut() = Some(Snapshot { finite: finite.to_vec(), infinite: infinite.to_vec(), success });
+            }
+        })));
+        set_env("REFSOLVER_RLIMIT", sh.tier.pick("3000000", "20000000"));
+        set_env("REFSOLVER_MAX_CHECKS", sh.tier.pick("500", "20000"));
+        let mcfg = McCfg { persona, individually: false, check_constraints: false, k_max: 0, solver_seed: rng.next() % 100_000, diversify: 0, core_mode: core };
+        let run = run_pdr(&mut ctx, &sys, &mcfg, no_gen, &sh.workdir.clone(), &format!("c10c_{}", sh.cur.n));
+        patronus::verif::set_pdr_observer(None);
+        unset_env("REFSOLVER_MAX_CHECKS");
+        sh.count("corpus_pdr_runs", 1);
+        let cfg_txt = format!("{name} persona={persona} generalisation={} cores={core} seed={}", !no_gen, mcfg.solver_seed);
+        let mut fail = |sh: &mut Shard, sig: String, d: String| {
+            sh.violation(sig, format!("{d} ({cfg_txt})"), json!({"file": name}));
+        };
+        match &run.verdict {
+            Verdict::Success => {
+                sh.hist("corpus_verdicts", "success");
+                if let Some(d) = sim_bad {
+                    fail(sh, "C10|corpus|unsound|success-but-simulation-reached-a-bad-state".into(), format!("pdr says Success, but the reference simulator reached a bad state at step {d} on a constraint-satisfying path"));
+                } else {
+                    // a bounded check whose counterexample (if any) is validated by the reference simulator
+                    let bcfg = McCfg { persona: "z3", individually: false, check_constraints: false, k_max: sh.tier.pick(10, 25), solver_seed: 1, diversify: 0, core_mode: "minimal" };
+                    let b = run_bmc(&mut ctx, &sys, &bcfg, &sh.workdir.clone(), &format!("c10cb_{}", sh.cur.n));
+                    if let Verdict::Fail(w) = &b.verdict {
+                        if validate_witness(&ctx, &sys, w).is_ok() {
+                            fail(sh, "C10|corpus|unsound|success-but-validated-counterexample".into(), format!("pdr says Success, but a counterexample of {} steps replays in the reference simulator:\n{}", w.inputs.len(), util::trunc(&patronus::btor2::witness_to_string(w), 2000)));
+                            unset_env("REFSOLVER_RLIMIT");
+                            return;
+                        }
+                    }
+                    let _ = std::fs::remove_file(&b.replay);
+                    let _ = std::fs::remove_file(&b.log);
+                    let snap = snaps.borrow().clone();
+                    match snap {
+                        Some(snap) => match self.sampled_invariant_check(sh, &ctx, &sys, rng, &snap.infinite) {
+                            Ok(()) => sh.count("corpus_success_invariants_sampled", 1),
+                            Err((kind, text)) => fail(sh, format!("C10|corpus|frame-invariant|{kind}"), text),
+                        },
+                        None => sh.count("corpus_success_without_final_snapshot", 1),
+                    }
+                }
+            }
+            Verdict::Fail(w) => {
+                sh.hist("corpus_verdicts", "fail");
+                match validate_witness(&ctx, &sys, w) {
+                    Ok(_) => sh.count("corpus_witnesses_validated", 1),
+                    Err((kind, text)) => fail(sh, format!("C10|corpus|invalid-witness|{kind}"), text),
+                }
+            }
+            other => {
+                if budget_exceeded(other) {
+                    sh.count("corpus_runs_over_the_effort_bound", 1);
+                } else {
+                    let cause = no_verdict_cause(&run);
+                    fail(sh, format!("C10|corpus|indefinite|{}|{cause}", other.name()), format!("pdr returned {:?}", other));
+                }
+            }
+        }
+        unset_env("REFSOLVER_RLIMIT");
+        sh.distinct(util::hash_str(&cfg_txt));
+        let _ = std::fs::remove_file(&run.log);
+    }
+}
+
 impl Check for C10 {
     fn id(&self) -> &'static str {
         "C10"
     }
     fn work(&self, tier: Tier) -> Vec<WorkItem> {
-        vec![WorkItem { mode: "gen", count: std::env::var("VERIF_N").ok().and_then(|s| s.parse().ok()).unwrap_or(tier.pick(320, 12_000)) }]
+        vec![WorkItem { mode: "corpus", count: super::c11::corpus_files().len() as u64 }, WorkItem { mode: "gen", count: std::env::var("VERIF_N").ok().and_then(|s| s.parse().ok()).unwrap_or(tier.pick(320, 12_000)) }]
     }
     fn evaluations_counter(&self) -> &'static str {
         "pdr_runs"
     }
     fn rule(&self) -> String {
-        "G2 bit-vector systems (<= 8 state bits, <= 4 input bits, free/initialised/const states, init chains, 0-2 constraints, 1-3 bads, shared sub-terms) whose full reachability fixpoint R4 computes; each system is given to patronus::mc::pdr under 4 of the 21 solver behaviours {bitwuzla, z3, cvc5} x {generalisation on, off} and yices-smt2 (off) x unsat-core answers {minimal, full, random superset} x random model seeds (rotating per system). Verdict: Success/Fail must match unbounded reachability; Unknown/Err/panic or more than 10^5 solver queries is a violation (bounded-progress restatement of termination); Fail witnesses go through the C03 validator. Hook H3: after every main-loop iteration and before Success the frame trace is checked on the explicit state space: (A) no cube of frame j contains a feasible state reachable within j steps, no cube of the infinite frame contains any feasible reachable state; (B) on Success the infinite frame contains every feasible initial state, is closed under the constrained transition relation and contains no state that is bad under a constraint-satisfying input. distinct_nontrivial = distinct (system, behaviour) runs on systems with >= 2 reachable states.".into()
+        "G2 bit-vector systems (<= 8 state bits, <= 4 input bits, free/initialised/const states, init chains, 0-2 constraints, 1-3 bads, shared sub-terms) whose full reachability fixpoint R4 computes; each system is given to patronus::mc::pdr under 4 of the 21 solver behaviours {bitwuzla, z3, cvc5} x {generalisation on, off} and yices-smt2 (off) x unsat-core answers {minimal, full, random superset} x random model seeds (rotating per system). Verdict: Success/Fail must match unbounded reachability; Unknown/Err/panic or more than 10^5 solver queries is a violation (bounded-progress restatement of termination); Fail witnesses go through the C03 validator. Hook H3: after every main-loop iteration and before Success the frame trace is checked on the explicit state space: (A) no cube of frame j contains a feasible state reachable within j steps, no cube of the infinite frame contains any feasible reachable state; (B) on Success the infinite frame contains every feasible initial state, is closed under the constrained transition relation and contains no state that is bad under a constraint-satisfying input. mode corpus: the shipped designs with bit-vector states only (quick <= 4 kB, thorough <= 16 kB) are given to pdr under one random behaviour and a deterministic effort bound (z3 rlimit per query, query count per session; runs over it are counted, not judged): Fail witnesses go through the C03 validator; Success must not contradict a bad state reached by constrained random simulation in R3 or a bounded counterexample that replays in R3, and the returned invariant is sampled: no state visited by random constrained simulation lies in a blocked cube, no sampled invariant state is bad under a constraint-satisfying input, sampled constraint-satisfying steps stay inside. distinct_nontrivial = distinct (system, behaviour) runs on systems with >= 2 reachable states.".into()
     }
     fn assumptions(&self) -> Vec<String> {
         vec![
@@ -173,8 +353,12 @@ impl Check for C10 {
     fn shard_timeout_s(&self, tier: Tier) -> u64 {
         tier.pick(1800, 6 * 3600)
     }
-    fn run_case(&self, sh: &mut Shard, _case: &CaseId) {
+    fn run_case(&self, sh: &mut Shard, case: &CaseId) {
         let mut rng = Rng::new(sh.case_seed());
+        if case.mode == "corpus" {
+            self.corpus_case(sh, &mut rng, case.n as usize);
+            return;
+        }
         let mut ctx = Context::default();
         let mut cfg = mc_sys_cfg(&mut rng);
         cfg.arrays = false;
@@ -303,5 +487,6 @@ impl Check for C10 {
         m.floor("frame snapshots checked", m.c("snapshots_checked"), tier.pick(3_000, 100_000));
         m.floor("success invariants checked", m.c("success_invariants_checked"), tier.pick(100, 5_000));
         m.floor("solver behaviours exercised", m.hist_len("behaviour") as u64, 13);
+        m.floor("pdr runs on shipped designs", m.c("corpus_pdr_runs"), tier.pick(20, 30));
     }
 }
